@@ -443,7 +443,7 @@ const SCHEMES_Q: [&str; 8] = ["http", "https", "ws", "wss", "ftp", "data", "HTTP
 const SCHEMES_T: [&str; 11] = ["http", "https", "ws", "wss", "ftp", "data", "HTTP", "Wss", "x", "chrome-extension", "h2+a.b"];
 const SLASHES_Q: [&str; 4] = ["://", ":", ":/", ":/\\"];
 const SLASHES_T: [&str; 7] = ["://", ":", ":/", ":///", ":////", ":/\\", ":\\\\"];
-const USERINFO_Q: [&str; 4] = ["", "u@", "u:p@", "a.b@"];
+const USERINFO_Q: [&str; 5] = ["", "u@", "u:p@", "a.b@", "u@v@"];
 const USERINFO_T: [&str; 10] = ["", "u@", "u:p@", "a.b@", "@", "u:@", ":p@", "é@", "u@v@", "u\t@"];
 const PORTS_Q: [&str; 2] = ["", ":8080"];
 const PORTS_T: [&str; 4] = ["", ":8080", ":", ":80"];
